@@ -11,9 +11,9 @@ Local Open Scope string_scope.
 Definition C13_conforms_full : Prop :=
   forall c rq fs, same_obs (run_ws c rq fs) (spec_ws c rq fs).
 
-(* proved under the four finding classes as explicit boolean guards
-   (g_all = g_vars && g_shape && g_truthy && g_stop) *)
-Theorem C13_conforms_partial : forall c rq fs, g_all rq fs = true ->
+(* proved under the two open finding classes as explicit boolean guards (g_all = g_shape && g_nonnull);
+   the guards g_stop (F26) and g_vars were deleted when /repo b1e7ba9 and d334181 landed *)
+Theorem C13_conforms_partial : forall c rq fs, g_all fs = true ->
   same_obs (run_ws c rq fs) (spec_ws c rq fs).
 Proof. exact conform. Qed.
 Print Assumptions C13_conforms_partial.
@@ -60,38 +60,35 @@ Proof. exact first_not_ack. Qed.
 Print Assumptions C13_first_not_ack_invalid_partial.
 
 (* ---- exactly one subscribe, carrying query, operationName and the serialised variables
-        (subscribe_ref: the json.dumps(default=to_jsonable_python) meaning of the HTTP path) ---- *)
-Definition C13_one_subscribe_full : Prop := forall c rq f r m, is_ack f = true ->
-  subscribe_ref rq = Some m ->
-  sent_of (t_events (run_ws c rq (f :: r))) = init_msg c :: m :: repeat pong_msg (count_pings (spec_prefix r)).
-Theorem C13_one_subscribe_partial : forall c rq f r m, is_ack f = true -> g_vars rq = true ->
-  subscribe_ref rq = Some m ->
+        (json.dumps(default=to_jsonable_python), the serialisation of the HTTP path) — full strength
+        since /repo d334181 ---- *)
+Theorem C13_one_subscribe : forall c rq f r m, is_ack f = true -> subscribe_msg rq = Some m ->
   sent_of (t_events (run_ws c rq (f :: r))) = init_msg c :: m :: repeat pong_msg (count_pings (spec_prefix r)).
 Proof. exact one_subscribe. Qed.
-Print Assumptions C13_one_subscribe_partial.
+Print Assumptions C13_one_subscribe.
 
-(* ---- the yielded list is the data of the next frames, in order ---- *)
+(* ---- the yielded list is the data of the next frames, in order: proved up to the null-data
+        class (what is left of F14 after /repo 8b27040), the only guard left ---- *)
 Definition C13_yields_next_in_order_full : Prop := forall c rq f r m, is_ack f = true ->
   subscribe_msg rq = Some m ->
   yielded_of (t_events (run_ws c rq (f :: r))) = next_data (spec_prefix r).
 Theorem C13_yields_next_in_order_partial : forall c rq f r m, is_ack f = true ->
-  subscribe_msg rq = Some m -> g_truthy r = true -> g_stop r = true ->
+  subscribe_msg rq = Some m -> g_nonnull r = true ->
   yielded_of (t_events (run_ws c rq (f :: r))) = next_data (spec_prefix r).
 Proof. exact yields_partial. Qed.
 Print Assumptions C13_yields_next_in_order_partial.
 
-(* ---- finishes on complete ---- *)
-Definition C13_complete_finishes_full : Prop := forall c rq f a x b m, is_ack f = true ->
+(* ---- finishes on complete, whatever follows: outcome Finished, close() once, the complete frame
+        is the last frame consumed, yields = the non-null data of the next frames before it — full
+        strength since /repo b1e7ba9 ---- *)
+Theorem C13_complete_finishes : forall c rq f a x b m, is_ack f = true ->
   subscribe_msg rq = Some m -> nonterminal a = true -> skind_of x = SComplete ->
   t_fin (run_ws c rq (f :: a ++ x :: b)) = Finished /\
-  yielded_of (t_events (run_ws c rq (f :: a ++ x :: b))) = next_data a.
-Theorem C13_complete_finishes_partial : forall c rq f a x m, is_ack f = true ->
-  subscribe_msg rq = Some m -> nonterminal a = true -> skind_of x = SComplete ->
-  t_fin (run_ws c rq (f :: a ++ [x])) = Finished /\
-  closes_of (t_events (run_ws c rq (f :: a ++ [x]))) = 1 /\
-  yielded_of (t_events (run_ws c rq (f :: a ++ [x]))) = filter truthy (next_data a).
+  closes_of (t_events (run_ws c rq (f :: a ++ x :: b))) = 1 /\
+  consumed_of (t_events (run_ws c rq (f :: a ++ x :: b))) = S (S (List.length a)) /\
+  yielded_of (t_events (run_ws c rq (f :: a ++ x :: b))) = filter nonnull (next_data a).
 Proof. exact complete_finishes. Qed.
-Print Assumptions C13_complete_finishes_partial.
+Print Assumptions C13_complete_finishes.
 
 (* ---- error => the multi-error with the frame's errors; malformed => invalid-message ---- *)
 Definition C13_malformed_raises_invalid_full : Prop := forall c rq f a x b m, is_ack f = true ->
@@ -100,13 +97,13 @@ Definition C13_malformed_raises_invalid_full : Prop := forall c rq f a x b m, is
 Theorem C13_error_raises_multi_partial : forall c rq f a x b m l, is_ack f = true ->
   subscribe_msg rq = Some m -> nonterminal a = true -> skind_of x = SError l -> shape_ok x = true ->
   t_fin (run_ws c rq (f :: a ++ x :: b)) = RaisedMulti l (frame_json x) /\
-  yielded_of (t_events (run_ws c rq (f :: a ++ x :: b))) = filter truthy (next_data a).
+  yielded_of (t_events (run_ws c rq (f :: a ++ x :: b))) = filter nonnull (next_data a).
 Proof. exact error_multi. Qed.
 Print Assumptions C13_error_raises_multi_partial.
 Theorem C13_malformed_raises_invalid_partial : forall c rq f a x b m, is_ack f = true ->
   subscribe_msg rq = Some m -> nonterminal a = true -> skind_of x = SMalformed -> shape_ok x = true ->
   t_fin (run_ws c rq (f :: a ++ x :: b)) = RaisedInvalid (Some x) /\
-  yielded_of (t_events (run_ws c rq (f :: a ++ x :: b))) = filter truthy (next_data a).
+  yielded_of (t_events (run_ws c rq (f :: a ++ x :: b))) = filter nonnull (next_data a).
 Proof. exact malformed_invalid. Qed.
 Print Assumptions C13_malformed_raises_invalid_partial.
 
@@ -126,35 +123,31 @@ Definition NEXT (d : json) := fr "next" [("payload", JObj [("data", d)])].
 Definition COMPLETE := fr "complete" [].
 Definition D1 := JObj [("x", JInt 1)].
 
-(* F14: a next frame whose data is {} (or null) is not yielded *)
-Theorem C13_yields_refuted_falsy_data : exists c rq f r m, is_ack f = true /\ subscribe_msg rq = Some m /\
-  g_stop r = true /\ yielded_of (t_events (run_ws c rq (f :: r))) <> next_data (spec_prefix r).
-Proof. exists C0, RQ0, ACK, [NEXT (JObj [])]. eexists. vm_compute. repeat split; discriminate. Qed.
-
-(* F26: frames that follow complete are still processed *)
-Theorem C13_yields_refuted_after_complete : exists c rq f r m, is_ack f = true /\ subscribe_msg rq = Some m /\
-  g_truthy r = true /\ yielded_of (t_events (run_ws c rq (f :: r))) <> next_data (spec_prefix r).
-Proof. exists C0, RQ0, ACK, [COMPLETE; NEXT D1]. eexists. vm_compute. repeat split; discriminate. Qed.
+(* F14, narrowed by /repo 8b27040: a next frame whose data is null is (still) not yielded *)
+Theorem C13_yields_refuted_null_data : exists c rq f r m, is_ack f = true /\ subscribe_msg rq = Some m /\
+  yielded_of (t_events (run_ws c rq (f :: r))) <> next_data (spec_prefix r).
+Proof. exists C0, RQ0, ACK, [NEXT JNull]. eexists. vm_compute. repeat split; discriminate. Qed.
 
 Theorem C13_yields_next_in_order_refuted : ~ C13_yields_next_in_order_full.
 Proof.
-  intro H. specialize (H C0 RQ0 ACK [COMPLETE; NEXT D1] _ eq_refl eq_refl). vm_compute in H. discriminate.
+  intro H. specialize (H C0 RQ0 ACK [NEXT JNull] _ eq_refl eq_refl). vm_compute in H. discriminate.
 Qed.
 Print Assumptions C13_yields_next_in_order_refuted.
 
-Theorem C13_complete_finishes_refuted : ~ C13_complete_finishes_full.
-Proof.
-  intro H.
-  destruct (H C0 RQ0 ACK [] COMPLETE [fr "error" [("payload", JArr [JObj [("message", JStr "late")]])]]
-              _ eq_refl eq_refl eq_refl eq_refl) as [F _].
-  vm_compute in F. discriminate.
-Qed.
-Print Assumptions C13_complete_finishes_refuted.
+(* falsy but non-null data is yielded since 8b27040 (was the F14 witness [ack, next {}]) *)
+Example C13_regression_empty_object_data :
+  yielded_of (t_events (run_ws C0 RQ0 [ACK; NEXT (JObj []); NEXT (JInt 0); NEXT (JStr ""); NEXT D1])) =
+    [JObj []; JInt 0; JStr ""; D1] /\
+  g_nonnull [NEXT (JObj []); NEXT (JInt 0); NEXT (JStr ""); NEXT D1] = true.
+Proof. vm_compute. split; reflexivity. Qed.
 
-(* a ping after complete cannot be answered: the connection is already closed *)
-Theorem C13_complete_then_ping_closed :
-  t_fin (run_ws C0 RQ0 [ACK; COMPLETE; fr "ping" []]) = ConnClosed.
-Proof. vm_compute. reflexivity. Qed.
+(* regression witnesses of the two repaired findings (they were ..._refuted theorems before) *)
+Example C13_regression_after_complete :
+  let t := run_ws C0 RQ0 [ACK; COMPLETE; NEXT D1; fr "ping" [];
+                          fr "error" [("payload", JArr [JObj [("message", JStr "late")]])]] in
+  t_fin t = Finished /\ yielded_of (t_events t) = [] /\ consumed_of (t_events t) = 2 /\
+  List.length (sent_of (t_events t)) = 2.
+Proof. vm_compute. repeat split. Qed.
 
 (* shape class: JSON that is not an object, an unhashable type, a payload of the wrong kind *)
 Theorem C13_first_not_ack_invalid_refuted : ~ C13_first_not_ack_invalid_full.
@@ -173,23 +166,23 @@ Proof.
 Qed.
 Print Assumptions C13_malformed_raises_invalid_refuted.
 
-(* variables: a value only to_jsonable_python can encode (datetime, ...) makes the subscribe fail
-   with TypeError where the HTTP path of the same client serialises it *)
 Definition RQ_DT := {| r_query := "subscription($t: DateTime) { x(since: $t) }"; r_opname := Some "S";
-                       r_vars := Some [("t", VOpaque (JStr "2024-01-02T03:04:05"))] |}.
-Theorem C13_one_subscribe_refuted : ~ C13_one_subscribe_full.
-Proof.
-  intro H. specialize (H C0 RQ_DT ACK [] _ eq_refl eq_refl). vm_compute in H. discriminate.
-Qed.
-Print Assumptions C13_one_subscribe_refuted.
-Theorem C13_opaque_variable_type_error :
-  t_fin (run_ws C0 RQ_DT [ACK]) = RaisedOther "TypeError" /\
-  sent_of (t_events (run_ws C0 RQ_DT [ACK])) = [init_msg C0].
+                       r_vars := Some [("t", VOpaque (JStr "2024-01-02T03:04:05"));
+                                       ("w", VModel false (JObj [("at", JStr "2024-01-02T03:04:05")]))] |}.
+Example C13_regression_datetime_variable :
+  t_fin (run_ws C0 RQ_DT [ACK]) = Finished /\
+  sent_of (t_events (run_ws C0 RQ_DT [ACK])) =
+    [init_msg C0;
+     JObj [("id", JStr "<id>"); ("type", JStr "subscribe");
+           ("payload", JObj [("query", JStr "subscription($t: DateTime) { x(since: $t) }");
+                             ("operationName", JStr "S");
+                             ("variables", JObj [("t", JStr "2024-01-02T03:04:05");
+                                                 ("w", JObj [("at", JStr "2024-01-02T03:04:05")])])])]].
 Proof. vm_compute. split; reflexivity. Qed.
 
 Theorem C13_conforms_refuted : ~ C13_conforms_full.
 Proof.
-  intro H. destruct (H C0 RQ0 [ACK; NEXT (JObj [])]) as (_ & E & _). vm_compute in E. discriminate.
+  intro H. destruct (H C0 RQ0 [ACK; NEXT JNull]) as (_ & E & _). vm_compute in E. discriminate.
 Qed.
 Print Assumptions C13_conforms_refuted.
 
@@ -204,7 +197,7 @@ Definition C_RICH := {| c_url := "ws://h/g"; c_headers := [("X-A", JStr "1"); ("
 Definition FS_RICH := [ACK; NEXT D1; fr "ping" []; fr "pong" []; NEXT (JObj [("x", JInt 2)]); COMPLETE].
 
 Example C13_guards_satisfiable :
-  g_all RQ_RICH FS_RICH = true /\
+  g_all FS_RICH = true /\
   yielded_of (t_events (run_ws C_RICH RQ_RICH FS_RICH)) = [D1; JObj [("x", JInt 2)]] /\
   t_fin (run_ws C_RICH RQ_RICH FS_RICH) = Finished /\
   List.length (sent_of (t_events (run_ws C_RICH RQ_RICH FS_RICH))) = 3 /\
